@@ -560,6 +560,7 @@ func execC06(rc *harness.RunCtx, p *harness.Plan, cfg *Config, w *world, ops []O
 			continue
 		}
 		cz.beginSegment(s.corpusOn)
+		cz.sequential = oneClient(ops[start:i]) && !cz.pendingAtStart
 		for _, op := range ops[start:i] {
 			cz.noteDelivery(op, s.corpusOn)
 		}
@@ -652,6 +653,9 @@ type c06Causes struct {
 	eqDatePN  map[string]bool
 	delivered map[int]bool
 	oddTarget map[string]bool
+	// sequential: the current segment is driven by one client
+	sequential     bool
+	pendingAtStart bool
 }
 
 func newC06Causes(w *world) *c06Causes {
@@ -666,6 +670,24 @@ func (c *c06Causes) noteDelivery(op Op, corpusOn bool) {
 	ref := c.w.b[op.I].RefS
 	c.segNow = append(c.segNow, ref)
 	c.delivered[op.I] = true
+	if c.sequential {
+		// once a blob has to wait for a dependency, its later re-indexing is
+		// asynchronous: the rest of the segment is not sequential any more
+		seen := map[string]bool{ref: true}
+		for k := range c.segSeen {
+			seen[k] = true
+		}
+		for _, r := range c.segNow {
+			seen[r] = true
+		}
+		ds := newDepState(c.w, seen)
+		for i, b := range c.w.b {
+			if seen[b.RefS] && ds.state(i) != 1 {
+				defer func() { c.sequential = false }()
+				break
+			}
+		}
+	}
 	if it.K == "del" {
 		switch c.w.item(it.T).K {
 		case "pn", "claim", "del":
@@ -677,7 +699,19 @@ func (c *c06Causes) noteDelivery(op Op, corpusOn bool) {
 		// By the dependency model the target had no meta row when the segment
 		// of this delivery began: the live corpus may see the claim twice
 		// (partial commit first, complete re-index later).
-		ds := newDepState(c.w, c.segSeen)
+		// (a segment driven by a single client is sequential: everything
+		// delivered earlier in it has been processed)
+		seen := c.segSeen
+		if c.sequential {
+			seen = map[string]bool{}
+			for k := range c.segSeen {
+				seen[k] = true
+			}
+			for _, r := range c.segNow[:len(c.segNow)-1] {
+				seen[r] = true
+			}
+		}
+		ds := newDepState(c.w, seen)
 		if st := ds.refState(c.w.b[it.T].RefS); st == 3 {
 			c.dupDel[ref] = true
 		}
@@ -689,10 +723,17 @@ func (c *c06Causes) noteDelivery(op Op, corpusOn bool) {
 // incrementally or scanned from rows that hold their partial meta row -
 // already knows the blob and will ignore the completed mutation.
 func (c *c06Causes) beginSegment(corpusOn bool) {
+	c.sequential = false
+	c.pendingAtStart = false
+	ds := newDepState(c.w, c.segSeen)
+	for i, b := range c.w.b {
+		if c.segSeen[b.RefS] && ds.state(i) != 1 {
+			c.pendingAtStart = true // a delivery of this segment may wake it asynchronously
+		}
+	}
 	if !corpusOn {
 		return
 	}
-	ds := newDepState(c.w, c.segSeen)
 	for i, b := range c.w.b {
 		if c.w.item(i).K == "del" && c.segSeen[b.RefS] && ds.state(i) != 1 {
 			c.dupDel[b.RefS] = true
@@ -812,4 +853,20 @@ func (c *c06Causes) explain(method string, refs []string, corpusOn bool) string 
 		}
 	}
 	return strings.Join(cs, "+")
+}
+
+// oneClient: every delivery of the segment is made by the same client and
+// none has its source put racing.
+func oneClient(ops []Op) bool {
+	c := -1
+	for _, op := range ops {
+		if op.K != "deliver" {
+			continue
+		}
+		if op.Race || (c >= 0 && op.C != c) {
+			return false
+		}
+		c = op.C
+	}
+	return true
 }
